@@ -95,11 +95,13 @@ func (f Fault) Site() string {
 
 // DiskPlan is every decision the simulated disk takes during a run.
 type DiskPlan struct {
-	Chunk         int     `json:"chunk"`                    // max bytes per Read; 0 = whole buffer
-	EOFWithData   bool    `json:"eof_with_data,omitempty"`  // final Read returns n>0 together with io.EOF
-	NoReadDirFile bool    `json:"no_readdirfile,omitempty"` // directory handles do not implement fs.ReadDirFile
-	LatencyMs     int     `json:"latency_ms,omitempty"`     // simulated latency per operation (needs a synctest bubble)
-	Faults        []Fault `json:"faults,omitempty"`
+	Chunk         int  `json:"chunk"`                    // max bytes per Read; 0 = whole buffer
+	EOFWithData   bool `json:"eof_with_data,omitempty"`  // final Read returns n>0 together with io.EOF
+	NoReadDirFile bool `json:"no_readdirfile,omitempty"` // directory handles do not implement fs.ReadDirFile
+	// DirBatch > 0: ReadDir(n) hands out at most that many entries per call, however many are asked for
+	DirBatch  int     `json:"dir_batch,omitempty"`
+	LatencyMs int     `json:"latency_ms,omitempty"` // simulated latency per operation (needs a synctest bubble)
+	Faults    []Fault `json:"faults,omitempty"`
 }
 
 // SimFS implements scalibrfs.FS over a Node tree.
@@ -348,6 +350,10 @@ func (d *dirHandle) ReadDir(n int) ([]fs.DirEntry, error) {
 	}
 	if n > len(rest) {
 		n = len(rest)
+	}
+	if b := d.fs.Plan.DirBatch; b > 0 && n > b {
+		// a paged listing: fewer entries than asked for although more follow (legal per io/fs)
+		n = b
 	}
 	var out []fs.DirEntry
 	for _, ch := range rest[:n] {
